@@ -323,6 +323,12 @@ func init() {
 						}
 					}
 					c.casen("c03|"+fmt.Sprintf("%+v|%d|%s", lc, li, vr.name), vr.name+" => "+real)
+					if !vr.own && !est && v.Status >= 300 && v.Status < 400 {
+						// "... yields an ERROR PAGE and no session cookie": a redirect that quietly restarts the login (and lands the
+						// browser, signed in, where the link's author chose) is not an error page
+						c.violation("C03", fmt.Sprintf("a callback without the CSRF cookie of its login was answered with a redirect (%d to %s) instead of an error page", v.Status, truncate(v.Location, 120)), map[string]interface{}{
+							"variant": vr.name, "cfg": fmt.Sprintf("%+v", cfg), "response": real})
+					}
 					if est && !vr.own {
 						c.violation("C03", "callback established a session without the CSRF cookie of the same login", map[string]interface{}{
 							"variant": vr.name, "state": sl.state, "cookie": truncate(vr.cookie, 300), "cfg": fmt.Sprintf("%+v", cfg), "response": real})
@@ -643,6 +649,27 @@ func init() {
 				}
 				if mode != "echo" && est && !lc.skipNonce {
 					c.violation("C05", "ID token with a wrong/absent/raw/replayed nonce yielded a session", map[string]interface{}{"mode": mode, "cfg": fmt.Sprintf("%+v", cfg), "response": real})
+				}
+			}
+			// logins started from LONG deep links (the state carries the redirect): the login's own state and cookie complete it, however
+			// long the state is (plain, and inflated by --encode-state)
+			for _, n := range []int{1200, 1700, 2100, 3000} {
+				b := newBrowser()
+				rd := "/deep/" + strings.Repeat("segment-0123456789/", n/19) + "end?x=" + strings.Repeat("v", n%19)
+				if sl := e.startOne(b, "L", rd); sl != nil {
+					target, g := e.callbackFor(sl, u, nil)
+					if g == nil {
+						continue
+					}
+					v := e.do(reqSpec{Target: target, Cookie: b.cookieHeader()})
+					c.casen("c03|"+fmt.Sprintf("%+v|long-state|%d", lc, n), fmt.Sprint(v.Status))
+					c.count("c03:long-state")
+					if !(v.Status == 302 && hasSessionSet(v, e.opts.Cookie.Name)) {
+						c.violation("C03", fmt.Sprintf("a login started from a deep link of %d bytes did not complete with its own unmodified state and CSRF cookie (status %d)", len(rd), v.Status),
+							map[string]interface{}{"redirect_bytes": len(rd), "state_bytes": len(sl.state), "cfg": fmt.Sprintf("%+v", cfg), "status": v.Status})
+					} else if v.Location != rd {
+						c.violation("C06", "post-login landing differs from the plain same-site path requested (long deep link)", map[string]interface{}{"want_bytes": len(rd), "got": truncate(v.Location, 100)})
+					}
 				}
 			}
 			// the SAME browser, after its login completed: the identity provider (or an attacker in its place) sends the browser back to
